@@ -251,7 +251,7 @@ func (e *Engine) intrinsic(name string, args []any) any {
 		lc.argNames = []string{"count", "i", "post:ret"}
 		e.cut = lc
 		return nil
-	case "AdversaryConn", "AdversaryConnMode":
+	case "AdversaryConn", "AdversaryConnMode", "RogueServerConn":
 		return IfaceV{}
 	case "Quiesce":
 		e.quiesce()
